@@ -400,6 +400,10 @@ class CrashSaveEngine(Engine):
             if final != post:
                 raise kernel.HarnessError("crash-state model disagrees with the real close(): %r vs %r" % (
                     sorted((k, len(v)) for k, v in (final or {}).items()), sorted((k, len(v)) for k, v in post.items())))
+            # inference consults stored object information: only meaningful when that information
+            # came from rope's own analysis (the synthetic values of the C12 vocabulary exercise the
+            # serializer, they are not types)
+            real_info_only = not any(s.get("op") == "oi" and s.get("kind") in ("call", "name") for s in trace["steps"])
             accept_h = [prev_h, new_h, [[], []]]
             accept_o = [prev_o, new_o, {}]
             modules = sorted(p for p in W.snapshot() if p.endswith(".py"))
@@ -425,7 +429,7 @@ class CrashSaveEngine(Engine):
                     out.stats["probe_torn_or_temp_state"] += 1
                 out.state(key)
                 verdict = self._recover(out, W, ropedir, files, label, accept_h, accept_o, modules, prefs, limit,
-                                        liveness=(n % every == 0), hide_lib=(n % 2 == 1), deep=(n % 3 == 0))
+                                        liveness=(n % every == 0), hide_lib=(n % 2 == 1), deep=(real_info_only and n % 3 == 0))
                 out.log.add(ev="crash", label=label, state=key[:12], verdict=verdict)
             out.stats["crash_states"] += n
             # ---- the save is interrupted by an exception instead of a hard
@@ -460,7 +464,7 @@ class CrashSaveEngine(Engine):
                         out.state(key)
                         seen.add(key)
                     verdict = self._recover(out, W, ropedir, files, label, accept_h, accept_o, modules, prefs, limit,
-                                            liveness=(n_ab % 3 == 0))
+                                            liveness=(n_ab % 3 == 0), deep=real_info_only)
                     out.log.add(ev="abort", label=label, raised=type(raised).__name__ if raised else None,
                                 state=key[:12], verdict=verdict, on=getattr(rec2, "aborted_on", None), n_after=len(rec2.events),
                                 files={k: [len(v), hashlib.sha256(v).hexdigest()[:8]] for k, v in sorted(files.items())})
@@ -488,7 +492,7 @@ class CrashSaveEngine(Engine):
                     raise kernel.HarnessError("cannot rewrite the saved history in the older format: %r" % (e,))
                 out.evals += 1
                 out.stats["exec_older_format_history"] += 1
-                verdict = self._recover(out, W, ropedir, old_format, "older-format", None, accept_o, modules, prefs, limit, liveness=True)
+                verdict = self._recover(out, W, ropedir, old_format, "older-format", None, accept_o, modules, prefs, limit, liveness=True, deep=real_info_only)
                 out.log.add(ev="older_format", verdict=verdict)
             _write_dir(ropedir, post)
             out.schedules.add(kernel.short_hash([e[0] for e in events]))
